@@ -119,6 +119,7 @@ type c12Case struct {
 	Seed       int64      `json:"seed"`
 	Pre        string     `json:"pre"` // bytes served by crypto/rand.Reader before the pseudo-random stream
 	Station    c12Station `json:"station"`
+	SeqID      int        `json:"seq_id"`     // cases with the same non-zero id run one after the other on ONE processor, built once
 	FE         string     `json:"fe"`         // "" (RegProcessor entry points) | api | dns
 	ServerGen  *uint32    `json:"server_gen"` // generation of the front end's latest ClientConf (nil: none)
 }
@@ -188,6 +189,8 @@ type c12Oracles struct {
 
 type c12Res struct {
 	CtorErr  bool    `json:"ctor_err"`  // the real constructor rejected the configuration
+	CfgDump0 string  `json:"cfg_dump0"` // ... right after construction (empty when the processor of the sequence is reused)
+	CfgDump  string  `json:"cfg_dump"`  // the processor's override configuration after the call (its own state, read back)
 	Status   int     `json:"status"`    // api: HTTP status
 	BodyLen  int     `json:"body_len"`  // api: length of the request body
 	CCGen    *uint32 `json:"cc_gen"`    // api: generation of the ClientConf attached to the response
@@ -388,6 +391,35 @@ func c12Transport(i int) lib.Transport {
 	return nil
 }
 
+var (
+	c12SeqProc   *RegProcessor
+	c12SeqID     int
+	c12FreshDump string
+)
+
+// the override configuration held by the processor, read back from its state
+func c12DumpCfg(p *RegProcessor) string {
+	var sb strings.Builder
+	one := func(tag string, l []Subnet, cum []float64) {
+		for i, s := range l {
+			cidr := "<nil>"
+			if s.CIDR.IPNet != nil {
+				cidr = s.CIDR.IPNet.String()
+			}
+			fmt.Fprintf(&sb, "%s %s w=%v port=%d prefix=%d", tag, cidr, s.Weight, s.Port, s.PrefixId)
+			if i < len(cum) {
+				fmt.Fprintf(&sb, " cum=%v", cum[i])
+			}
+			sb.WriteString("; ")
+		}
+	}
+	one("min", p.minOverrideSubnets, p.minOverrideSubnetsCumulativeWeights)
+	one("prefix", p.prefixOverrideSubnets, p.prefixOverrideSubnetsCumulativeWeights)
+	one("excl", p.exclusionsFromOverride, nil)
+	fmt.Fprintf(&sb, "enforce=%v pmin=%v pprefix=%v", p.enforceSubnetOverrides, p.prcntMinRegsToOverride, p.prcntPrefixRegsToOverride)
+	return sb.String()
+}
+
 func c12Processor(c c12Case, rd *c12Reader) (*RegProcessor, *c12Sender, *c12OvRec) {
 	snd := &c12Sender{ok: c.Cfg.SendOK}
 	var subs, excl []Subnet
@@ -410,12 +442,25 @@ func c12Processor(c c12Case, rd *c12Reader) (*RegProcessor, *c12Sender, *c12OvRe
 	// socket is replaced by the recording sender, the selector by the scripted one, and the
 	// authentication fields / override set / transports are set as the case asks (the authenticated
 	// constructor differs only in those and in starting the process-wide zmq auth handler).
-	p, err := NewRegProcessorNoAuth("127.0.0.1", 0, c12Metrics, c.Cfg.Enforce, subs, excl, c.Cfg.PMin, c.Cfg.PPrefix)
-	if err != nil || p == nil {
-		return nil, snd, nil
+	var p *RegProcessor
+	c12FreshDump = ""
+	if c.SeqID != 0 && c12SeqProc != nil && c12SeqID == c.SeqID {
+		p = c12SeqProc // the processor of this sequence: configuration as the constructor (and earlier requests) left it
+	} else {
+		var err error
+		p, err = NewRegProcessorNoAuth("127.0.0.1", 0, c12Metrics, c.Cfg.Enforce, subs, excl, c.Cfg.PMin, c.Cfg.PPrefix)
+		if err != nil || p == nil {
+			return nil, snd, nil
+		}
+		p.sock.Close()
+		c12FreshDump = c12DumpCfg(p)
+		c12SeqProc, c12SeqID = nil, 0
+		if c.SeqID != 0 {
+			c12SeqProc, c12SeqID = p, c.SeqID
+		}
 	}
-	p.sock.Close()
 	p.sock = snd
+	p.regOverrides = nil
 	p.ipSelector = c12Selector{c.Sel}
 	p.authenticated = c.Cfg.Auth
 	if c.Cfg.Auth {
@@ -555,6 +600,7 @@ func c12One(c c12Case, dir string, fe VerifFrontEnd) (res c12Res) {
 		res.CtorErr = true
 		return
 	}
+	res.CfgDump0 = c12FreshDump
 	w := c12Wrapper(c)
 	orig := proto.Clone(w).(*pb.C2SWrapper)
 	var clientAddr []byte
@@ -636,6 +682,7 @@ func c12One(c c12Case, dir string, fe VerifFrontEnd) (res c12Res) {
 		}
 	}()
 	crand.Reader = oldReader
+	res.CfgDump = c12DumpCfg(p)
 
 	switch {
 	case err == nil:
